@@ -31,6 +31,7 @@ func runC13(p *load.Program, r *oblig.Report) {
 	c13Murmur(p, r)
 	c13Cache(p, r)
 	c13WriterBalancer(p, r)
+	c13CacheLength(p, r)
 }
 
 // returnShapes lists the distinct normalised shapes of the values a function can return.
